@@ -16,58 +16,53 @@ fn bookkeeping(name: &str, user_names: &BTreeSet<String>) -> bool {
     reserved(name) && !user_names.contains(name)
 }
 
-pub fn run_c10(cfg: &RunCfg, trace: bool) -> RunOut {
-    let mut tomb: BTreeSet<String> = BTreeSet::new();
-    let mut recreated: BTreeSet<String> = BTreeSet::new();
-    let mut tomb_by: std::collections::BTreeMap<String, &'static str> = Default::default();
-    let initial = cfg.specs[0].view();
-    let mut user_names: BTreeSet<String> = BTreeSet::new();
-    for k in initial.t.keys() {
-        user_names.extend(k.split('/').map(|c| c.to_string()));
-    }
-    for op in &cfg.ops {
-        for p in op.paths() {
-            if let Ok(c) = canon(&p.s) {
-                user_names.extend(c.split('/').map(|c| c.to_string()));
-            }
+/// C10 state: what was removed and not re-created, what was re-created, which names are the user's.
+pub struct C10Track {
+    tomb: BTreeSet<String>,
+    recreated: BTreeSet<String>,
+    tomb_by: std::collections::BTreeMap<String, &'static str>,
+    initial: Model,
+    user_names: BTreeSet<String>,
+}
+
+impl C10Track {
+    pub fn new(cfg: &RunCfg) -> C10Track {
+        let initial = cfg.specs[0].view();
+        let mut user_names: BTreeSet<String> = BTreeSet::new();
+        for k in initial.t.keys() {
+            user_names.extend(k.split('/').map(|c| c.to_string()));
         }
-    }
-    run_loop(cfg, trace, true, &mut |cx, i, op, before, want, got, snaps| {
-        let shape = cx.shape.clone();
-        if i > 0 {
-            if matches!(want, Want::Unspec) {
-                return true;
-            }
-            if judge(want, got).is_some() {
-                // contract deviation: C09's business; model and implementation have diverged
-                cx.out.count("c10.run_ended_by_contract_deviation");
-                return true;
-            }
-            let m0 = &before.m[0];
-            let m1 = &cx.world.m[0];
-            // newly removed paths
-            for p in m0.t.keys() {
-                if !m1.exists(p) {
-                    tomb.insert(p.clone());
-                    tomb_by.insert(p.clone(), op.kind());
-                    recreated.remove(p);
-                    cx.out.count(if initial.exists(p) { "probe.c10.removed_initial_entry" } else { "probe.c10.removed_created_entry" });
-                }
-            }
-            for p in m1.t.keys() {
-                if tomb.remove(p) {
-                    recreated.insert(p.clone());
-                    let changed_type = match (initial.t.get(p), m1.t.get(p)) {
-                        (Some(Node::Dir), Some(Node::File(_))) | (Some(Node::File(_)), Some(Node::Dir)) => true,
-                        _ => false,
-                    };
-                    cx.out.count(if changed_type { "probe.c10.recreated_with_other_type" } else { "probe.c10.recreated" });
+        for op in &cfg.ops {
+            for p in op.paths() {
+                if let Ok(c) = canon(&p.s) {
+                    user_names.extend(c.split('/').map(|c| c.to_string()));
                 }
             }
         }
-        let s: &Snap = &snaps[0];
-        let m = cx.world.m[0].clone();
-        // walk items
+        C10Track { tomb: BTreeSet::new(), recreated: BTreeSet::new(), tomb_by: Default::default(), initial, user_names }
+    }
+
+    /// the model moved from m0 to m1 by a successful operation
+    pub fn transition(&mut self, m0: &Model, m1: &Model, op: &Op, out: &mut RunOut) {
+        for p in m0.t.keys() {
+            if !m1.exists(p) {
+                self.tomb.insert(p.clone());
+                self.tomb_by.insert(p.clone(), op.kind());
+                self.recreated.remove(p);
+                out.count(if self.initial.exists(p) { "probe.c10.removed_initial_entry" } else { "probe.c10.removed_created_entry" });
+            }
+        }
+        for p in m1.t.keys() {
+            if self.tomb.remove(p) {
+                self.recreated.insert(p.clone());
+                let changed_type = matches!((self.initial.t.get(p), m1.t.get(p)), (Some(Node::Dir), Some(Node::File(_))) | (Some(Node::File(_)), Some(Node::Dir)));
+                out.count(if changed_type { "probe.c10.recreated_with_other_type" } else { "probe.c10.recreated" });
+            }
+        }
+    }
+
+    /// (key suffix, detail) of the first C10 violation visible in this snapshot
+    pub fn check(&self, s: &Snap, m: &Model, i: usize, op: &Op) -> Option<(String, String)> {
         let mut walked: BTreeSet<String> = BTreeSet::new();
         if let Some(Ok(items)) = &s.walk {
             for it in items.iter().flatten() {
@@ -75,9 +70,9 @@ pub fn run_c10(cfg: &RunCfg, trace: bool) -> RunOut {
             }
         }
         // (a) tombstones stay absent for every observer
-        for p in tomb.iter() {
+        for p in self.tomb.iter() {
             if let Some(e) = s.e.get(p) {
-                let by = tomb_by.get(p).copied().unwrap_or("?");
+                let by = self.tomb_by.get(p).copied().unwrap_or("?");
                 let parent_lists = s.e.get(&parent_of(p)).and_then(|pe| pe.list.as_ref().ok()).map(|l| l.iter().any(|c| c == p)).unwrap_or(false);
                 let field = if !matches!(e.exists, Ok(false)) {
                     Some("exists")
@@ -95,21 +90,20 @@ pub fn run_c10(cfg: &RunCfg, trace: bool) -> RunOut {
                     None
                 };
                 if let Some(field) = field {
-                    let key = format!("C10|{}|tombstone-visible|{}|removed-by={}|after={}", shape, field, by, if i == 0 { "initial" } else { op.kind() });
-                    let was = if initial.exists(p) { "initial layer content" } else { "created during the run" };
-                    cx.violate(i, key, format!("'{}' ({}; removed by {}) is visible again through {} after step {} {:?}", p, was, by, field, i, op));
-                    return true;
+                    let was = if self.initial.exists(p) { "initial layer content" } else { "created during the run" };
+                    return Some((
+                        format!("tombstone-visible|{}|removed-by={}|after={}", field, by, if i == 0 { "initial" } else { op.kind() }),
+                        format!("'{}' ({}; removed by {}) is visible again through {} after step {} {:?}", p, was, by, field, i, op),
+                    ));
                 }
             }
         }
         // (b) re-created entries are fresh
-        for p in recreated.iter() {
+        for p in self.recreated.iter() {
             match (m.t.get(p), s.e.get(p)) {
                 (Some(Node::File(b)), Some(e)) => {
                     if !matches!(&e.bytes, Ok(g) if *g == **b) {
-                        let key = format!("C10|{}|recreated-file-not-fresh|after={}", shape, op.kind());
-                        cx.violate(i, key, format!("re-created file '{}' should hold exactly {} new bytes, read gives {}", p, b.len(), short(&e.bytes.as_ref().map(|g| g.len()))));
-                        return true;
+                        return Some((format!("recreated-file-not-fresh|after={}", op.kind()), format!("re-created file '{}' should hold exactly {} new bytes, read gives {}", p, b.len(), short(&e.bytes.as_ref().map(|g| g.len())))));
                     }
                 }
                 (Some(Node::Dir), Some(e)) => {
@@ -119,9 +113,7 @@ pub fn run_c10(cfg: &RunCfg, trace: bool) -> RunOut {
                         l
                     });
                     if got.as_ref().ok() != Some(&want) {
-                        let key = format!("C10|{}|recreated-dir-not-fresh|after={}", shape, op.kind());
-                        cx.violate(i, key, format!("re-created directory '{}' should list {:?}, lists {}", p, want, short(&got)));
-                        return true;
+                        return Some((format!("recreated-dir-not-fresh|after={}", op.kind()), format!("re-created directory '{}' should list {:?}, lists {}", p, want, short(&got))));
                     }
                 }
                 _ => {}
@@ -131,23 +123,150 @@ pub fn run_c10(cfg: &RunCfg, trace: bool) -> RunOut {
         for (d, e) in &s.e {
             if let Ok(l) = &e.list {
                 for c in l {
-                    if bookkeeping(name_of(c), &user_names) {
-                        let key = format!("C10|{}|bookkeeping-visible|listing|dir={}", shape, if d.is_empty() { "root" } else { "sub" });
-                        cx.violate(i, key, format!("read_dir('{}') yields the bookkeeping entry '{}' after step {} {:?}", d, c, i, op));
-                        return true;
+                    if bookkeeping(name_of(c), &self.user_names) {
+                        return Some((format!("bookkeeping-visible|listing|dir={}", if d.is_empty() { "root" } else { "sub" }), format!("read_dir('{}') yields the bookkeeping entry '{}' after step {} {:?}", d, c, i, op)));
                     }
                 }
             }
         }
         for w in &walked {
-            if w.split('/').any(|c| bookkeeping(c, &user_names)) {
-                let key = format!("C10|{}|bookkeeping-visible|walk", shape);
-                cx.violate(i, key, format!("walk_dir(root) yields the bookkeeping entry '{}' after step {} {:?}", w, i, op));
-                return true;
+            if w.split('/').any(|c| bookkeeping(c, &self.user_names)) {
+                return Some(("bookkeeping-visible|walk".to_string(), format!("walk_dir(root) yields the bookkeeping entry '{}' after step {} {:?}", w, i, op)));
             }
         }
+        None
+    }
+}
+
+fn is_creation(op: &Op) -> bool {
+    matches!(op, Op::CreateDir(_) | Op::Write { append: false, .. })
+}
+
+pub fn run_c10(cfg: &RunCfg, trace: bool) -> RunOut {
+    let mut tr = C10Track::new(cfg);
+    let mut out = run_loop(cfg, trace, true, &mut |cx, i, op, before, want, got, snaps| {
+        let shape = cx.shape.clone();
+        // a re-creation may be made to fail by an underlying I/O error: the deletion must persist
+        if let Some(plan) = &cx.cfg.fault {
+            let ctl = cx.built[0].ctl.clone();
+            if i == plan.op_index {
+                let mut f = ctl.fault.lock().unwrap();
+                f.armed = true;
+                f.counter = 0;
+                f.tripped = false;
+                f.fail_at = Some(plan.k);
+                f.sticky = false;
+                f.kind = io_kind(&plan.kind);
+                f.nodes = plan.nodes;
+                drop(f);
+                ctl.fault_on.store(true, std::sync::atomic::Ordering::SeqCst);
+            } else if i == plan.op_index + 1 {
+                ctl.fault.lock().unwrap().armed = false;
+            }
+        }
+        if i > 0 {
+            if matches!(want, Want::Unspec) {
+                return true;
+            }
+            let faulted_step = cx.cfg.fault.as_ref().map(|p| p.op_index + 1 == i).unwrap_or(false);
+            if faulted_step && is_creation(op) && matches!(want, Want::Ok(_)) && got.is_err() {
+                // the re-creating call itself failed for an underlying reason: nothing was re-created
+                cx.world = before.clone();
+                cx.out.count("probe.c10.failed_recreation_under_fault");
+            } else if faulted_step && !got.session_ok() {
+                // opened, then a write failed: a partially written file exists (legal); end the run
+                return true;
+            } else if judge(want, got).is_some() {
+                // contract deviation: C09's business; model and implementation have diverged
+                cx.out.count("c10.run_ended_by_contract_deviation");
+                return true;
+            } else {
+                let (m0, m1) = (before.m[0].clone(), cx.world.m[0].clone());
+                tr.transition(&m0, &m1, op, &mut cx.out);
+            }
+        }
+        let m = cx.world.m[0].clone();
+        if let Some((k, d)) = tr.check(&snaps[0], &m, i, op) {
+            cx.violate(i, format!("C10|{}|{}", shape, k), d);
+            return true;
+        }
         false
-    })
+    });
+    // the same history through the async overlay (every 3rd run; same injected failure)
+    if out.violations.is_empty() && out.harness_error.is_none() && ((cfg.fault.is_some() && cfg.seed % 2 == 0) || cfg.seed % 8 == 0) {
+        run_c10_async(cfg, &mut out);
+    }
+    out
+}
+
+fn run_c10_async(cfg: &RunCfg, out: &mut RunOut) {
+    use crate::asyncsim::*;
+    use std::sync::atomic::Ordering;
+    let ab = match abuild(&cfg.specs[0], crate::rng::mix(cfg.order_seed, 0), cfg.permute, crate::rng::mix(cfg.seed, 0xC10), 30) {
+        Ok(a) => a,
+        Err(_) => return,
+    };
+    out.count("probe.c10.async_runs");
+    let shape = format!("{}/async", cfg.specs[0].shape());
+    let mut tr = C10Track::new(cfg);
+    let mut world = World { m: vec![cfg.specs[0].view()], w: Default::default() };
+    let mut ax = AExec { root: ab.root.clone(), slots: Default::default() };
+    let mut universe: BTreeSet<String> = world.m[0].t.keys().cloned().collect();
+    for op in &cfg.ops {
+        for p in op.paths() {
+            if let Ok(c) = canon(&p.s) {
+                for a in ancestors(&c) {
+                    universe.insert(a);
+                }
+                universe.insert(c);
+            }
+        }
+    }
+    for (idx, op) in cfg.ops.iter().enumerate() {
+        let i = idx + 1;
+        let before = world.clone();
+        let want = world.apply(op);
+        for k in world.m[0].t.keys() {
+            universe.insert(k.clone());
+        }
+        if matches!(want, Want::Unspec) {
+            return;
+        }
+        let faulted = cfg.fault.as_ref().map(|p| p.op_index == idx).unwrap_or(false);
+        ab.ctl.on.store(true, Ordering::SeqCst);
+        if faulted {
+            ab.ctl.calls.store(0, Ordering::SeqCst);
+            ab.ctl.fail_at.store(cfg.fault.as_ref().unwrap().k, Ordering::SeqCst);
+        }
+        let mut st = PollStats::default();
+        let got = ax.exec(op, &mut st);
+        ab.ctl.fail_at.store(0, Ordering::SeqCst);
+        ab.ctl.on.store(false, Ordering::SeqCst);
+        out.steps += 1;
+        if got.is_panic() {
+            return;
+        }
+        if faulted && is_creation(op) && matches!(want, Want::Ok(_)) && got.is_err() {
+            world = before.clone();
+            out.count("probe.c10.async_failed_recreation_under_fault");
+        } else if faulted && !got.session_ok() {
+            return;
+        } else if judge(&want, &got).is_some() {
+            return;
+        } else {
+            let (m0, m1) = (before.m[0].clone(), world.m[0].clone());
+            let mut dummy = RunOut::default();
+            tr.transition(&m0, &m1, op, &mut dummy);
+        }
+        let snap = match asnapshot(&ab, &universe) {
+            Ok(s) => s,
+            Err(_) => return,
+        };
+        if let Some((k, d)) = tr.check(&snap, &world.m[0], i, op) {
+            out.violations.push(Violation { property: "C10".into(), key: format!("C10|{}|{}", shape, k), detail: format!("async overlay: {}", d), step: i });
+            return;
+        }
+    }
 }
 
 /// hash of everything C08 demands to stay unchanged in a lower layer: types, bytes,
